@@ -222,6 +222,10 @@ def run(ctx):
                          % (v, _c15.CEL_VIA[v].split('::')[-1], 'yes' if ok else srcs), tb['span'], key=cp.name + '|N8|%d' % v)
         else:
             ctx.fail(cp.name + '|N8|no-switch', 'CelContent::parse: no single match on the cel type')
+        # .. and which of the two applies is decided by the stored cel type alone, not by a look at the data (seed C07-r treated a
+        # type-2 cel whose payload does not start with one of three common zlib headers as raw: streams of other levels were misread)
+        import rule as _Rm
+        _c15.matchers(_Rm.View(ctx, {"T1": "N8", "T2": "N8", "T3": "N8"}), bindings, only=('asefile::cel::CelContent::parse',))
 
     # ---------- N9
     render.duplicate_cel(ctx, rule='N9')
